@@ -55,6 +55,8 @@ class Kit(object):
         v = self._eval(expr, scope)
         if isinstance(v, (bool, specenv.Sym)) and (isinstance(v, bool) or v.kind == "bool"):
             return ops._z(ops.truth(v))
+        if isinstance(v, int) and not isinstance(v, bool):
+            return WRAP["int"](z3.IntVal(v))
         return v
 
     def beh(self, target, bname):
@@ -270,13 +272,16 @@ def check_property(pid, tier, seed):
     nat = run_native(plan, native_targets, seed, budget, pid=pid) if native_targets else []
     nat_by = {(r["target"], r["behaviour"]): r for r in nat}
     native_fail_reported = set()
+    models_asked = [0]
     for o, r in failed:
         tb = (o.meta.get("function"), o.meta.get("behaviour"))
         nr = nat_by.get(tb)
         detail = {"clause_kind": o.kind, "note": o.note, "path": o.meta.get("labels"), "solver": r["times"],
                   "smt_file": r["file"]}
-        model = solve.get_model(r["file"], [], 10)
-        detail["solver_model"] = model
+        k0 = match_known(known, o.id, None)
+        if k0 is None and models_asked[0] < 3:
+            models_asked[0] += 1
+            detail["solver_model"] = solve.get_model(r["file"], [], 10)
         witness = None
         if nr and nr.get("failures"):
             witness = nr["failures"][0]
